@@ -15,7 +15,7 @@ package run
 //vf:opt C17 preempt=1 delaybound=1
 //vf:stub C17 encoding/json.Marshal: contract model (flat struct -> {"tag":value,...} in field order, strings NOT escaped, integers decimal, error iff a float is NaN/Inf as documented); utils.OpenReadFile/OpenWriteFile and (*os.File).Write/Close: in-memory output; utils.NewRDBLoader: pre-filled closed channel (the parser is C01); time.After: never fires
 //vf:assume C17 base64 on the specification side is encoding/base64 of the standard library (trusted); scores are compared through the trusted FormatFloat/ParseFloat round trip
-//vf:outside C17 JSON text production and escaping (that a printed line parses back as JSON): encoding/json is reflection based and not encodable; file I/O; progress output; more than 3 entries; schedules with more than one deviation from round-robin order except for the single-entry runs of the string, list and zset kinds on two workers (thorough)
+//vf:outside C17 JSON text production and escaping (that a printed line parses back as JSON): encoding/json is reflection based and not encodable; file I/O; progress output; more than 3 entries; unsynchronised use of the bufio.Writer by two goroutines (a data race inside bufio's methods: no scheduling point there, see seed C17-agent4); schedules with more than one deviation from round-robin order except for the single-entry runs of the string, list and zset kinds on two workers (thorough)
 
 import (
 	"bufio"
@@ -39,12 +39,24 @@ func vfDecodeEnv(pipe chan *rdb.BinEntry) {
 	vfStub("github.com/alibaba/RedisShake/redis-shake/common.OpenReadFile", func(name string) (*os.File, int64) { return new(os.File), 1 })
 	vfStub("github.com/alibaba/RedisShake/redis-shake/common.OpenWriteFile", func(name string) *os.File { return new(os.File) })
 	vfStub("(*os.File).Close", func(f *os.File) error { return nil })
+	timers := vfParam("timer", 0)
 	vfStub("(*os.File).Write", func(f *os.File, b []byte) (int, error) {
+		if vfParam("timer", 0) > 0 {
+			vfYield() // output storage may be slow: the write is a scheduling point
+		}
 		vfOut = append(vfOut, b...)
 		return len(b), nil
 	})
 	vfStub("github.com/alibaba/RedisShake/redis-shake/common.NewRDBLoader", func(r *bufio.Reader, rb *atomic2.Int64, size int) chan *rdb.BinEntry { return pipe })
-	vfStub("time.After", func(d time.Duration) <-chan time.Time { return make(chan time.Time) })
+	// timer=0: the one-second progress timers never fire; timer=k: up to k of them, chosen freely, fire at once
+	vfStub("time.After", func(d time.Duration) <-chan time.Time {
+		ch := make(chan time.Time, 1)
+		if timers > 0 && vfPick("fire", 2) == 1 {
+			timers--
+			ch <- time.Time{}
+		}
+		return ch
+	})
 	_ = utils.CheckpointKey
 }
 
